@@ -587,6 +587,10 @@ func (tree *MutableTree) enableFastStorageAndCommitIfNotEnabled() (bool, error) 
 			return false, err
 		}
 	}
+	if err := fastItr.Error(); err != nil {
+		// the scan of the stale index was cut short: do not rebuild on top of its remains
+		return false, err
+	}
 
 	if err := tree.enableFastStorageAndCommit(); err != nil {
 		tree.ndb.storageVersion = defaultStorageVersionValue
